@@ -106,6 +106,19 @@ def gen_sv(thorough):
                 prev = "a%d" % i
             k += 1
             progs.append(("sv%d" % k, text.strip(), {"fam": "sv", "templates": ts, "ninst": 2, "horizon": 12}))
+    # state-variable classes that derive from StateVariable through an intermediate class: Z is declared one level below
+    # StateVariable, P two levels below, the instance belongs to the deepest class
+    head_deep = "class M : StateVariable { predicate Z() { } } class S : M { predicate P() { duration >= 1.0; } } S s0 = new S(); "
+    TDEEP = [(kind, pred, "s0", timing) for kind in ("fact", "goal") for pred in ("P", "Z") for timing in ("free", "at0", "0to5", "pin0to5", "chain")]
+    for combo in itertools.product(range(len(TDEEP)), repeat=2):
+        ts = [TDEEP[i] for i in combo]
+        text = head_deep
+        prev = None
+        for i, t in enumerate(ts):
+            text += sv_atom_text(i, t, prev) + " "
+            prev = "a%d" % i
+        k += 1
+        progs.append(("sv%d" % k, text.strip(), {"fam": "sv", "templates": ts, "ninst": 1, "horizon": None, "deep": True}))
     # choice points: a0, then `{ a1 } or { a2 }`: the atom of the chosen disjunct becomes active by a search decision,
     # after the instance has already been swept once
     TD = [(kind, "P", "s0", timing) for kind in ("fact", "goal") for timing in ("free", "at0", "0to5", "pin0to5", "pin3to8")]
@@ -162,6 +175,15 @@ def gen_rr(thorough):
         elif start != "free":
             args.append("start: %s.0" % start)
         return "fact u%d = new %s.Use(%s);" % (i, res, ", ".join(args))
+    # resource classes derived from ReusableResource through an intermediate class, with a predicate extending Use
+    # declared in the deepest class
+    for cap in (2, 3):
+        for combo in itertools.product(range(len(UD)), repeat=2):
+            us = [UD[i] for i in combo]
+            text = ("class R : ReusableResource { R(real c) : ReusableResource(c) {} } class R2 : R { R2(real c) : R(c) {} predicate Drill() : Use { } } "
+                    "R2 r0 = new R2(%d.0); " % cap + " ".join(use_text(i, u).replace(".Use(", ".Drill(") for i, u in enumerate(us)))
+            k += 1
+            progs.append(("rr%d" % k, text, {"fam": "rr", "uses": us, "cap": cap, "horizon": None, "two": False, "deep": True}))
     for cap in (2, 3):
         for combo in itertools.product(range(len(UD)), repeat=2):
             us = [UD[i] for i in combo]
@@ -278,7 +300,7 @@ def check_c06(S, tag):
 
 def check_c04(S, tag):
     out = []
-    act = [a for a in S.atoms.values() if a["state"] == "Active" and is_interval(a) and a["pars"].get("tau") is not None and ":" in a["pred"] and a["pred"].split(":")[0] == "S"]
+    act = [a for a in S.atoms.values() if a["state"] == "Active" and is_interval(a) and a["pars"].get("tau") is not None and ":" in a["pred"] and a["pred"].split(":")[0] in ("S", "M")]
     for a in act:
         if len(tau_of(a)) != 1:
             out.append(("C04:active-atom-with-undecided-instance:%s" % tag, "active atom %s still has %d possible state variables" % (S.name(a["id"]), len(tau_of(a)))))
@@ -306,7 +328,7 @@ def jq(v):
 
 def check_c05(S, tag):
     out = []
-    uses = [a for a in S.atoms.values() if a["state"] == "Active" and a["pred"].endswith(":Use") and is_interval(a)]
+    uses = [a for a in S.atoms.values() if a["state"] == "Active" and (a["pred"].endswith(":Use") or a["pred"].endswith(":Drill")) and is_interval(a)]
     caps = {}
     for oid, it in S.items.items():
         f = S.item_fields(oid)
